@@ -280,6 +280,83 @@ def value_precedence(prog: Program, rep: Report, rule: str) -> None:
         rep.check(rule, fi.qual, f"value of a variable {names[c]}", got == want[c], what_bad=f"new particles get the {got} value, must be the {want[c]} value: " + ("released rows lose their column values" if c[0] else "the variable keeps its old length or a wrong fill"), what_ok=f"{want[c]} value", loc=fi.loc())
 
 
+def dead_removed(prog: Program, rep: Report, rule: str) -> None:
+    """Every path of State.compactify that does not filter the arrays must be impossible while a dead
+    particle is held. The guards only compare counts, so four orderings of (n, a) decide them."""
+    from ..paths import enumerate_paths as _paths
+    from ..program import expand_locals, inline_helpers
+
+    fi = inline_helpers(prog, prog.role_func("state", "compactify"))
+    CASES = {"empty state": (0, 0), "all dead": (2, 0), "some dead": (2, 1), "none dead": (2, 2)}
+
+    class Unknown(Exception):
+        pass
+
+    def ev(e, n, a):
+        t = unparse(e)
+        if t in ("len(self)", "len(self.variables['pid'])", "len(self.pid)", "len(self.variables['alive'])", "len(self.alive)", "self.alive.size", "self.variables['alive'].size", "len(self['pid'])", "len(self['alive'])"):
+            return n
+        if t in ("sum(self.variables['alive'])", "sum(self.alive)", "np.count_nonzero(self.variables['alive'])", "np.count_nonzero(self.alive)", "self.alive.sum()", "self.variables['alive'].sum()", "np.sum(self.alive)", "np.sum(self.variables['alive'])", "int(self.alive.sum())", "sum(self['alive'])"):
+            return a
+        if t in ("self.variables['alive'].all()", "self.alive.all()", "np.all(self.alive)", "all(self.alive)", "np.all(self.variables['alive'])"):
+            return a == n
+        if t in ("self.variables['alive'].any()", "self.alive.any()", "np.any(self.alive)", "any(self.alive)"):
+            return a > 0
+        if t in ("(~self.alive).any()", "np.any(~self.alive)", "(~self.variables['alive']).any()"):
+            return a < n
+        if isinstance(e, ast.Constant) and isinstance(e.value, (int, bool)):
+            return e.value
+        if isinstance(e, ast.Call) and unparse(e.func) in ("int", "bool") and len(e.args) == 1:
+            v = ev(e.args[0], n, a)
+            return int(v) if unparse(e.func) == "int" else bool(v)
+        if isinstance(e, ast.BinOp) and isinstance(e.op, (ast.Add, ast.Sub)):
+            l, r = ev(e.left, n, a), ev(e.right, n, a)
+            return l + r if isinstance(e.op, ast.Add) else l - r
+        if isinstance(e, ast.UnaryOp) and isinstance(e.op, ast.Not):
+            return not ev(e.operand, n, a)
+        if isinstance(e, ast.BoolOp):
+            vals = [ev(v, n, a) for v in e.values]
+            return all(vals) if isinstance(e.op, ast.And) else any(vals)
+        if isinstance(e, ast.Compare):
+            left = ev(e.left, n, a)
+            for op, c in zip(e.ops, e.comparators):
+                right = ev(c, n, a)
+                r = {ast.Eq: left == right, ast.NotEq: left != right, ast.Lt: left < right, ast.LtE: left <= right, ast.Gt: left > right, ast.GtE: left >= right}.get(type(op))
+                if r is None:
+                    raise Unknown(unparse(e))
+                if not r:
+                    return False
+                left = right
+            return True
+        raise Unknown(t)
+
+    def filters(p_) -> bool:
+        return any(s_[0] == "iter" or (s_[0] == "stmt" and isinstance(s_[1], ast.Assign) and "self.variables[" in unparse(s_[1].targets[0]) and isinstance(s_[1].value, ast.Subscript)) for s_ in p_.steps)
+
+    bad, unknown = [], []
+    n_paths = 0
+    for p_ in _paths(fi.node.body, unroll=(1,)):
+        n_paths += 1
+        if filters(p_) or p_.exit == "raise":
+            continue
+        for label, (n, a) in CASES.items():
+            if a == n:
+                continue  # nothing to remove in this ordering
+            try:
+                holds = all(bool(ev(expand_locals(t, fi.node), n, a)) == taken for t, taken in p_.conds())
+            except Unknown as u:
+                unknown.append(str(u))
+                continue
+            if holds:
+                bad.append(f"with {label} (n={n}, alive={a}) the path {p_.describe()} leaves compactify without removing anything")
+    if bad:
+        rep.bad(rule, fi.qual, "dead particles are removed whenever the state holds any", "; ".join(bad[:2]) + ": dead particles stay in the state and are written to later records", fi.loc())
+    elif unknown:
+        rep.add(rule, fi.qual, "dead particles are removed whenever the state holds any", None, f"guard outside the count algebra: {unknown[0]}", fi.loc())
+    else:
+        rep.ok(rule, fi.qual, "dead particles are removed whenever the state holds any", f"{n_paths} path(s), 4 orderings of (n, alive)", fi.loc())
+
+
 def compactify_step(prog: Program, rep: Report) -> None:
     rule = "R05.3"
     fi = prog.role_func("state", "compactify")
@@ -318,6 +395,9 @@ def compactify_step(prog: Program, rep: Report) -> None:
             derived = src in ("self.alive.copy()", "self.alive", "self.variables['alive'].copy()", "self.variables['alive']", "self['alive'].copy()", "self['alive']", "np.array(self.alive)", "self.alive.astype(bool)")
             rep.check(rule, fi.qual, f"mask `{mask_name}` = alive, bound before the loop, not rebound inside", bool(before) and derived and not inside, what_bad=f"mask defined as `{src}` (rebinding inside the loop: {len(inside)}): all arrays must be filtered with the *same* alive mask taken before any array is shortened", what_ok=src, loc=fi.loc())
     stores = all_stores
+    # the filter runs whenever some particle is dead: path conditions of the skipping paths, evaluated over
+    # the four orderings of (number of particles n, number alive a): (0,0), (n>0,a=0), (0<a<n), (a=n)
+    dead_removed(prog, rep, rule)
     # nothing else is stored
     others = [w for w in statefx.state_writes(prog) if w.fi.qual == fi.qual and w.node not in stores]
     rep.check(rule, fi.qual, "no other store to the state", not others, what_bad=f"also writes {[short(w.node) for w in others]}", what_ok="none", loc=fi.loc())
@@ -433,6 +513,8 @@ AUDIT = [
     Mut("no-nan-fill", ST, "        value_vars: dict[str, Any] = dict(self.default_values, **args)\n        for name in state_vars:\n            if name not in value_vars:\n                value_vars[name] = np.nan\n", "        value_vars: dict[str, Any] = dict(self.default_values, **args)\n", rule="R05.2"),
     Mut("benign-precedence-by-update", ST, "        value_vars: dict[str, Any] = dict(self.default_values, **args)\n        for name in state_vars:\n            if name not in value_vars:\n                value_vars[name] = np.nan\n", "        value_vars: dict[str, Any] = dict.fromkeys(state_vars, np.nan)\n        value_vars.update(self.default_values)\n        value_vars.update(args)\n", expect="silent"),
     Mut("benign-precedence-by-comprehension", ST, "        value_vars: dict[str, Any] = dict(self.default_values, **args)\n        for name in state_vars:\n            if name not in value_vars:\n                value_vars[name] = np.nan\n", "        value_vars: dict[str, Any] = {name: args.get(name, self.default_values.get(name, np.nan)) for name in state_vars}\n", expect="silent"),
+    Mut("compactify-skipped-when-all-dead", ST, "        if n_remove > 0:\n", "        if n_alive == 0 or n_remove == 0:\n            return\n        if True:\n", rule="R05.3"),
+    Mut("benign-compactify-guard-clause", ST, "        if n_remove > 0:\n", "        if n_particles == 0 or n_alive == n_particles:\n            return\n        if True:\n", expect="silent"),
     Mut("extinction-wipes-particle-variables", ST, "        if n_remove > 0:\n", "        if n_particles > 0 and n_alive == 0:\n            for var, dtype in self.dtypes.items():\n                self.variables[var] = np.array([], dtype)\n        elif n_remove > 0:\n", rule="R05.3"),
     Mut("pid-from-len", ST, "np.arange(self.npid, self.npid + num_new_particles, dtype=int),", "np.arange(len(self), len(self) + num_new_particles, dtype=int),", rule="R05.2"),
     Mut("npid-not-advanced", ST, "        self.npid = self.npid + num_new_particles\n", "", rule="R05.2"),
